@@ -18,6 +18,10 @@
      render, a partial when include/render loads it).
    * (REPAIRED code) loop_iteration_limit = 0 and local_namespace_limit = 0 are limits; the unrepaired
      truthiness tests ("0 means no limit") are the variant [v_zero := false].
+   * render-for copies a fresh isolated context for every item (the code after the C15 repair); the older
+     behaviour (one context reused for all items) is the variant [v_item := false].
+   * (REPAIRED code) LimitedStringIO writes text unchanged, like StringIO() (C08-limited-buffer-newlines.patch);
+     the unrepaired universal-newline translation of "\r\n" and "\r" is not modelled.
 
    Stack discipline (context managers, try/finally) is modelled by passing the context's "frame"
    (loop stack, carries, depths) DOWN as an argument; only the mutable parts (locals, ifchanged value,
@@ -105,9 +109,13 @@ Record limits := { l_loop : option N;   (* loop_iteration_limit *)
                    l_nest : Z }.        (* block_nesting_limit (always an int) *)
 
 Record variant := { v_carry : bool;    (* true: tablerow/include-array/render-for scale the carry (repaired) *)
-                    v_zero : bool }.   (* true: a loop / namespace limit of 0 is a limit (repaired) *)
-Definition repaired : variant := {| v_carry := true; v_zero := true |}.
-Definition unrepaired : variant := {| v_carry := false; v_zero := false |}.
+                    v_zero : bool;     (* true: a loop / namespace limit of 0 is a limit (repaired) *)
+                    v_item : bool }.   (* render-for: true = a fresh copied context per item (the code after
+                                          C15-render-for-items-share-one-context.patch); false = ONE copied context
+                                          reused for all items (locals persist from item to item).
+                                          Every theorem is proved for both. *)
+Definition repaired : variant := {| v_carry := true; v_zero := true; v_item := true |}.
+Definition unrepaired : variant := {| v_carry := false; v_zero := false; v_item := true |}.
 
 (* ------------------------------------------------------------------ UTF-8 *)
 Definition utf8_len (c : N) : Z :=
@@ -319,7 +327,9 @@ Section Exec.
        (seq (guard (copy_exceeded f) XDepth)
             (fun s => let fc := f_copy f (sum_sizes (s_locals s)) in
                       seq (guard (loop_exceeded fc n) XLoop)
-                          (in_ctx (iter 1 (N.to_nat n) (fun _ => partial body (f_scale v fc n)))) s))
+                          (if v_item v
+                           then iter 1 (N.to_nat n) (fun _ => in_ctx (partial body (f_scale v fc n)))
+                           else in_ctx (iter 1 (N.to_nat n) (fun _ => partial body (f_scale v fc n)))) s))
     | Call body =>
         seq (guard (copy_exceeded f) XDepth)
             (fun s => in_ctx (block body (f_copy f (sum_sizes (s_locals s)))) s)
